@@ -9,7 +9,8 @@ Expression-level model used by the theorems of C08 (core Lean only).
 * `pr` — the minimal unparser (parenthesises only where the parser would otherwise build another tree).
 * `nb`/`annot`/`flat` — the printer of prettyprinter.go restricted to operator trees: children first,
   a child is wrapped in parentheses iff `ppNeedsBrackets(parent, child, index)`; `nb` is that rule on
-  the heads of parent and child.
+  the heads of parent and child (a `return` with a value is always wrapped under an operator and never
+  wraps its own operand).
 
 This is NOT the full printer model (`Ecal.Print` in Printer.lean, which produces the text including
 templates, indentation and comments). The driver compares the two on every pure operator expression.
@@ -35,15 +36,18 @@ inductive PExpr where
   deriving DecidableEq, Repr
 
 /-- binding powers: `bp k` of the infix operator `k`, `pb k` of the prefix operator node `k`,
-    `off` the amount `ndPrefix` adds for its operand -/
+    `off` the amount `ndPrefix` adds for its operand; `stmt k` marks a statement-like prefix keyword
+    (`return` with a value, `ndReturn`): its operand is parsed with right binding 0, i.e. it takes
+    everything that follows -/
 structure Powers where
   bp : Nat → Nat
   pb : Nat → Nat
   off : Nat
+  stmt : Nat → Bool := fun _ => false
 
 namespace Powers
 /-- right binding with which a prefix operator parses its operand -/
-def pbp (P : Powers) (k : Nat) : Nat := P.pb k + P.off
+def pbp (P : Powers) (k : Nat) : Nat := if P.stmt k then 0 else P.pb k + P.off
 end Powers
 
 def lbp (P : Powers) : List Tok → Nat
@@ -131,9 +135,9 @@ def Expr.head : Expr → Head
 def nb (P : Powers) (exc : Nat → Nat → Bool) : Head → Head → Nat → Bool
   | _, .atom, _ => false
   | .atom, _, _ => false
-  | .pre K, .bin k, _ => decide (P.bp k ≤ P.pb K + P.off)
-  | .pre K, .pre k, _ => decide (P.pb k ≤ P.pb K + P.off)
-  | .bin K, .pre k, _ => decide (P.bp K > P.pb k + P.off)
+  | .pre K, .bin k, _ => if P.stmt K then false else decide (P.bp k ≤ P.pb K + P.off)
+  | .pre K, .pre k, _ => if P.stmt K then false else if P.stmt k then true else decide (P.pb k ≤ P.pb K + P.off)
+  | .bin K, .pre k, _ => if P.stmt k then true else decide (P.bp K > P.pb k + P.off)
   | .bin K, .bin k, idx =>
     if exc K k then false else decide (P.bp K > P.bp k) || (decide (P.bp K = P.bp k) && decide (idx > 0))
 
